@@ -7,6 +7,7 @@ import Bridge.Abs
 import PtaProofs.Lemmas.RuleAlgebra
 import PtaProofs.Lemmas.AnythingDedup
 import PtaProofs.Lemmas.RuleErrors
+import PtaProofs.Lemmas.AliasBatch
 namespace Pta.C12
 open Pta
 
@@ -56,7 +57,8 @@ theorem decomposition_except (mt : Str → Str → Bool) (g : PGraph Str) (A B :
   Pta.decomposition_except_lemma mt g A B dir
 
 /-- the `anything` alias: `S should not import anything` is `S should not import modules except S`
-    (for subject batches the parent/sub-module de-duplication leaves unchanged, e.g. a single subject) -/
+    (for subject batches the parent/sub-module de-duplication leaves unchanged, e.g. a single subject, or — since the
+    repair of F-C12a — a batch of `sub modules of` filters: `alias_anything_parents`) -/
 theorem alias_anything (mt : Str → Str → Bool) (g : PGraph Str) (S : List Filter) (dir : Bool)
     (hS : dedupSubjects S = S) :
     assertApplies mt { cfg := { subjects := some S, shouldNot := true, importDir := some dir, anything := true }, next := some false } g
@@ -74,6 +76,42 @@ theorem alias_anything_verdict (mt : Str → Str → Bool) (g : PGraph Str) (hc 
     verdictOf mt g { cfg := { subjects := some S, shouldNot := true, importDir := some dir, anything := true }, next := some false }
       = verdictOf mt g (mkRule false false true dir true S S) :=
   Pta.alias_anything_verdict_lemma mt g hc S dir hS
+
+/-- the `anything` alias for every batch of `sub modules of` filters (`are_sub_modules_of([...])`), related or not:
+    `_convert_aliases` removes nothing (`sub modules of p` does not contain `p`, so it covers no other subject — repair of
+    F-C12a), hence alias and spelled-out `except` rule have the SAME outcome (verdict, report, errors, rule object
+    afterwards) on every graph. Before the repair this failed for related identifiers, see
+    `alias_parents_regression_witness`. -/
+theorem alias_anything_parents (mt : Str → Str → Bool) (g : PGraph Str) (S : List Filter) (dir : Bool)
+    (hS : S.all Filter.isParent = true) :
+    dedupSubjects S = S ∧
+    assertApplies mt { cfg := { subjects := some S, shouldNot := true, importDir := some dir, anything := true }, next := some false } g
+      = assertApplies mt (mkRule false false true dir true S S) g :=
+  ⟨Pta.dedupSubjects_parents S hS, alias_anything mt g S dir (Pta.dedupSubjects_parents S hS)⟩
+
+/-- the verdict-class alias law for EVERY batch one naming call of the fluent API builds — `are_named([...])`,
+    `are_sub_modules_of([...])`, `have_name_matching(...)` — related identifiers and absent names included, on every
+    `HierClosed` graph (every graph `buildGraph` constructs): `S should not import / be imported by anything` has the
+    verdict class of `S should not import / be imported by modules except S`. -/
+theorem alias_anything_verdict_api (mt : Str → Str → Bool) (g : PGraph Str) (hc : HierClosed g) (S : List Filter) (dir : Bool)
+    (hS : namesOnly S = true ∨ S.all Filter.isParent = true ∨ (∃ p, S = [.regex p])) :
+    verdictOf mt g { cfg := { subjects := some S, shouldNot := true, importDir := some dir, anything := true }, next := some false }
+      = verdictOf mt g (mkRule false false true dir true S S) :=
+  Pta.alias_anything_verdict_api_lemma mt g hc S dir hS
+
+/-- slightly more general: names only, or ANY batch the de-duplication leaves unchanged (characterised by
+    `dedupSubjects_eq_self_iff`: no subject that is not a `sub modules of` filter lies strictly above another subject;
+    e.g. the mixed batch `[sub modules of p, p.a]`, see the example below). This is as far as the law goes for mixed
+    batches: see `alias_mixed_counterexample`. -/
+theorem alias_anything_verdict_names_or_fixed (mt : Str → Str → Bool) (g : PGraph Str) (hc : HierClosed g) (S : List Filter)
+    (dir : Bool) (hS : namesOnly S = true ∨ dedupSubjects S = S) :
+    verdictOf mt g { cfg := { subjects := some S, shouldNot := true, importDir := some dir, anything := true }, next := some false }
+      = verdictOf mt g (mkRule false false true dir true S S) :=
+  Pta.alias_anything_verdict_names_or_fixed mt g hc S dir hS
+
+theorem dedupSubjects_eq_self_iff (S : List Filter) :
+    dedupSubjects S = S ↔ ∀ o ∈ S, ∀ f ∈ S, o.isParent = false → isStrictSub o.id f.id = false :=
+  Pta.dedupSubjects_eq_self_iff S
 
 /-- what `_convert_aliases` does for every subject list (outcome AND rewritten rule object): the alias is the `except`
     rule on the de-duplicated subjects which remembers the subjects it removed (`dropped`; before the repair of F-C13b
@@ -140,6 +178,75 @@ example : verdictOf (fun _ _ => false) exG2 (mkRule false false true true true e
 example : verdictOf (fun _ _ => false) exG2
     { cfg := { subjects := some exS3, shouldNot := true, importDir := some true, anything := true }, next := some false } =
     .err .lookupError := by decide
+
+/-! ### the regression witness of F-C12a and the boundary of the alias law -/
+
+/-- nodes `p`, `p.a`, `p.a.x` (hierarchy edges `p → p.a → p.a.x`), one import `p.a.x → p` -/
+def exGW : PGraph Str :=
+  buildGraph ["p".toList, "p.a".toList, "p.a.x".toList] [absImport "p.a.x".toList "p".toList] none
+/-- `are_sub_modules_of(["p", "p.a"])` -/
+def exSW : List Filter := [.parent "p".toList, .parent "p.a".toList]
+
+/-- the regression witness of F-C12a: `modules_that().are_sub_modules_of(["p","p.a"]).should_not().import_anything()`
+    and the spelled-out `….should_not().import_modules_except_modules_that().are_sub_modules_of(["p","p.a"])` both FAIL
+    (the import `p.a.x → p` leaves `sub modules of p.a`, and `p` is in none of the objects), with the same report.
+    BEFORE the repair the left-hand side was `.pass`: `_convert_aliases` removed `sub modules of p.a` in favour of
+    `sub modules of p`, whose search treats its own parent `p` as inside. -/
+theorem alias_parents_regression_witness :
+    exSW.all Filter.isParent = true ∧ dedupSubjects exSW = exSW ∧
+    verdictOf (fun _ _ => false) exGW
+      { cfg := { subjects := some exSW, shouldNot := true, importDir := some true, anything := true }, next := some false } = .fail ∧
+    verdictOf (fun _ _ => false) exGW (mkRule false false true true true exSW exSW) = .fail ∧
+    (assertApplies (fun _ _ => false)
+      { cfg := { subjects := some exSW, shouldNot := true, importDir := some true, anything := true }, next := some false } exGW).2 =
+    (assertApplies (fun _ _ => false) (mkRule false false true true true exSW exSW) exGW).2 := by decide
+
+example : HierClosed exGW := Pta.buildGraph_hierClosed _ _ _ (by simp only [ExtBuild.NodeOf]; decide)
+/-- what the alias was before the repair: the `except` rule on `[sub modules of p]` alone (what the old de-duplication
+    kept), which PASSES on `exGW` -/
+example : verdictOf (fun _ _ => false) exGW
+    (mkRule false false true true true [.parent "p".toList] [.parent "p".toList]) = .pass := by decide
+
+/-- the mixed batch `[sub modules of p, p.a]` (not expressible with one naming call, but a value of the model): the
+    repaired de-duplication leaves it unchanged, so the alias law holds for it (both sides fail on `exGW`); before the
+    repair `p.a` was removed and the alias passed -/
+example : dedupSubjects [.parent "p".toList, .name "p.a".toList] = [.parent "p".toList, .name "p.a".toList] ∧
+    verdictOf (fun _ _ => false) exGW
+      { cfg := { subjects := some [.parent "p".toList, .name "p.a".toList], shouldNot := true, importDir := some true,
+                 anything := true }, next := some false } = .fail ∧
+    verdictOf (fun _ _ => false) exGW
+      (mkRule false false true true true [.parent "p".toList, .name "p.a".toList] [.parent "p".toList, .name "p.a".toList]) = .fail := by
+  decide
+
+/-- the three API batch shapes of `alias_anything_verdict_api`, each non-trivially -/
+example : namesOnly exS2 = true ∧ exSW.all Filter.isParent = true ∧ (∃ p, [Filter.regex "p.*".toList] = [.regex p]) :=
+  ⟨by decide, by decide, ⟨_, rfl⟩⟩
+
+/-- the law does NOT extend to arbitrary regex-free batches mixing `are_named` and `are_sub_modules_of` filters (no
+    single naming call of the fluent API builds these; the failure is independent of the repair of F-C12a). Two
+    witnesses on `HierClosed` graphs, all names existing, the alias PASSES and the spelled-out rule FAILS:
+    * `[p, sub modules of p.a, p.a.x]` with the import `p.a.x → p.a`: the name `p` covers and removes both others; in
+      the spelled-out rule the parent identifier `p.a` of an object is not an allowed importee for the subject `p.a.x`;
+    * `[p, p.a, sub modules of p]` with the import `p.a → p`: `p.a` is removed (covered by the name `p`); in the
+      spelled-out rule `p` is the parent identifier of an object, hence not an allowed importee for the subject `p.a`. -/
+theorem alias_mixed_counterexample :
+    let g1 : PGraph Str := buildGraph ["p".toList, "p.a".toList, "p.a.x".toList] [absImport "p.a.x".toList "p.a".toList] none
+    let S1 : List Filter := [.name "p".toList, .parent "p.a".toList, .name "p.a.x".toList]
+    let g2 : PGraph Str := buildGraph ["p".toList, "p.a".toList] [absImport "p.a".toList "p".toList] none
+    let S2 : List Filter := [.name "p".toList, .name "p.a".toList, .parent "p".toList]
+    (S1.all (fun f => !f.isRegex) = true ∧ (∀ f ∈ S1, g1.hasNode f.id = true) ∧
+      verdictOf (fun _ _ => false) g1
+        { cfg := { subjects := some S1, shouldNot := true, importDir := some true, anything := true }, next := some false } = .pass ∧
+      verdictOf (fun _ _ => false) g1 (mkRule false false true true true S1 S1) = .fail) ∧
+    (S2.all (fun f => !f.isRegex) = true ∧ (∀ f ∈ S2, g2.hasNode f.id = true) ∧
+      verdictOf (fun _ _ => false) g2
+        { cfg := { subjects := some S2, shouldNot := true, importDir := some true, anything := true }, next := some false } = .pass ∧
+      verdictOf (fun _ _ => false) g2 (mkRule false false true true true S2 S2) = .fail) := by decide
+
+example : HierClosed (buildGraph ["p".toList, "p.a".toList, "p.a.x".toList] [absImport "p.a.x".toList "p.a".toList] none) :=
+  Pta.buildGraph_hierClosed _ _ _ (by simp only [ExtBuild.NodeOf]; decide)
+example : HierClosed (buildGraph ["p".toList, "p.a".toList] [absImport "p.a".toList "p".toList] none) :=
+  Pta.buildGraph_hierClosed _ _ _ (by simp only [ExtBuild.NodeOf]; decide)
 
 
 /-! ## three-valued forms (audit finding F13)
